@@ -54,6 +54,14 @@ func init() {
 		g.callSeq(grp, drapkg, "AllocationTracker.ReleaseInstanceTypes", "trackerReleaseBudgetCalls", []string{"releaseCounters", "releaseCapacity"})
 		// the search tests the counter budget of a device before it records the device and books it as allocating
 		g.callSeq(grp, drapkg, "allocator.tryDevice", "tryDeviceCounterCalls", []string{"checkCapacity", "IsAllocated", "checkCounters", "deductAllocatingCapacity", "deductAllocatingCounters"})
+		// consumable capacity: every return of the guard checkCapacity with the condition it stands under; the consumption is
+		// computed for every dimension of the DEVICE (not of the request); an absent entry is filled in by fillEmptyRequest
+		c17Returns(g, grp, drapkg, "allocator.checkCapacity", "checkCapacityReturns")
+		g.callSeq(grp, drapkg, "allocator.checkCapacity", "checkCapacityCalls", []string{"requestsContainNonExistCapacity", "computeConsumedCapacity"})
+		c17RangeLoops(g, grp, drapkg, "computeConsumedCapacity", "calculateConsumedCapacity", "computeConsumed")
+		c17Returns(g, grp, drapkg, "computeConsumedCapacity", "computeConsumedReturns")
+		c17Returns(g, grp, drapkg, "calculateConsumedCapacity", "calculateConsumedReturns")
+		c17Returns(g, grp, drapkg, "fillEmptyRequest", "fillEmptyRequestReturns")
 	})
 }
 
@@ -122,6 +130,80 @@ func c17IfBlock(g *gen, group, pkgPath, fn, ident, lean string, condsOnly bool) 
 		} else {
 			b.WriteString(leanStr(render(st)))
 		}
+	}
+	b.WriteString("]\n\n")
+}
+
+// c17Returns emits `<lean> : List (String × String)`: every return statement of fn in source order, paired with the
+// condition of the innermost enclosing `if` / `case` clause it stands under ("" = none; "else" for an else branch), both
+// rendered on one line.
+func c17Returns(g *gen, group, pkgPath, fn, lean string) {
+	_, fd := g.findFunc(pkgPath, fn)
+	if fd == nil {
+		return
+	}
+	render := func(n ast.Node) string {
+		var b bytes.Buffer
+		if err := printer.Fprint(&b, g.fset, n); err != nil {
+			return "?"
+		}
+		return strings.Join(strings.Fields(b.String()), " ")
+	}
+	type pair struct{ cond, ret string }
+	var out []pair
+	var walk func(n ast.Node, cond string)
+	walk = func(n ast.Node, cond string) {
+		switch v := n.(type) {
+		case nil:
+		case *ast.BlockStmt:
+			if v == nil {
+				return
+			}
+			for _, st := range v.List {
+				walk(st, cond)
+			}
+		case *ast.ReturnStmt:
+			out = append(out, pair{cond, render(v)})
+		case *ast.IfStmt:
+			walk(v.Body, render(v.Cond))
+			if v.Else != nil {
+				if _, ok := v.Else.(*ast.IfStmt); ok {
+					walk(v.Else, cond)
+				} else {
+					walk(v.Else, "else")
+				}
+			}
+		case *ast.ForStmt:
+			walk(v.Body, cond)
+		case *ast.RangeStmt:
+			walk(v.Body, cond)
+		case *ast.SwitchStmt:
+			for _, cc := range v.Body.List {
+				c := cc.(*ast.CaseClause)
+				cs := "default"
+				if len(c.List) > 0 {
+					parts := []string{}
+					for _, e := range c.List {
+						parts = append(parts, render(e))
+					}
+					cs = strings.Join(parts, ", ")
+				}
+				for _, st := range c.Body {
+					walk(st, cs)
+				}
+			}
+		case *ast.LabeledStmt:
+			walk(v.Stmt, cond)
+		}
+	}
+	walk(fd.Body, "")
+	b := g.out(group)
+	fmt.Fprintf(b, "/-- every `return` of `%s.%s` (%s) with the condition of the innermost `if` / `case` it stands under -/\ndef %s : List (String × String) := [", pkgPath, fn, g.pos(fd.Pos()), lean)
+	for i, p := range out {
+		if i > 0 {
+			b.WriteString(", ")
+		}
+		fmt.Fprintf(b, "(%s, %s)", leanStr(p.cond), leanStr(p.ret))
 	}
 	b.WriteString("]\n\n")
 }
